@@ -447,10 +447,14 @@ class SecopClient(ProxyClient):
             while self._running:
                 while self.cleanup:
                     entry = self.cleanup.pop()
-                    for key, prev in self.active_requests.items():
-                        if prev is entry:
-                            self.active_requests.pop(key)
-                            break
+                    with self._requests_lock:
+                        for key, prev in self.active_requests.items():
+                            if prev is entry:
+                                self.active_requests.pop(key)
+                                break
+                    # requests parked behind the timed out one may be sent now
+                    while not self.pending.empty():
+                        self.txq.put(self.pending.get())
                 # may raise ConnectionClosed
                 reply = self.io.readline()
                 if reply is None:
